@@ -248,15 +248,15 @@ theorem step_nonEmpty (w : World) (op : Op) (h : w.msk.secrets.NonEmpty) : (w.st
 
 /-- in every reachable world no chain of the master key is empty -/
 theorem reachable_nonEmpty (w : World) (h : Reachable w) : w.msk.secrets.NonEmpty := by
-  obtain ⟨n, ops, rfl⟩ := h
+  obtain ⟨n, k, ops, rfl⟩ := h
   have : ∀ (ops : List Op) (w0 : World), w0.msk.secrets.NonEmpty → (ops.foldl World.step w0).msk.secrets.NonEmpty := by
     intro ops
     induction ops with
     | nil => intro w0 h0; exact h0
     | cons op rest ih => intro w0 h0; exact ih _ (step_nonEmpty w0 op h0)
   apply this ops
-  have h0 : (setup n).1.secrets.NonEmpty := by intro r c hm; simp [setup] at hm
-  have := step_nonEmpty ⟨(setup n).1, (setup n).2⟩ .update h0
+  have h0 : (setup n k).1.secrets.NonEmpty := by intro r c hm; simp [setup] at hm
+  have := step_nonEmpty ⟨(setup n k).1, (setup n k).2⟩ .update h0
   exact this
 
 end CC
